@@ -71,8 +71,23 @@ def run(ch: Checker) -> None:
     ch.check(not bad_calls, 'C09.1', rpf, 'flag order', 'requested plugins keep the order given on the command line', 'resolve_plugin_flag reorders the requested plugins: %s' % bad_calls)
     init = hp.methods['__init__']
     ok_init = False
+    def _configured_in_order(e: ast.AST, depth: int = 0) -> bool:
+        """e denotes the configured list flags.plugins[<key>] itself, element by element and in its order"""
+        while isinstance(e, ast.Call) and attr_chain(e.func) in ('list', 'tuple', 'iter') and len(e.args) == 1 and not e.keywords:
+            e = e.args[0]
+        if isinstance(e, ast.Subscript) and attr_chain(e.value) == 'self.flags.plugins' and not isinstance(e.slice, ast.Slice):
+            return True
+        if isinstance(e, ast.Call) and attr_chain(e.func) == 'self.flags.plugins.get' and 1 <= len(e.args) <= 2 and \
+                (len(e.args) == 1 or (isinstance(e.args[1], (ast.List, ast.Tuple)) and not e.args[1].elts)):
+            return True         # missing key = nothing configured = empty iteration
+        if isinstance(e, ast.Name) and depth < 3:
+            defs = [a for a in walk_no_nested(init.node) if isinstance(a, (ast.Assign, ast.AnnAssign)) and
+                    any(isinstance(t, ast.Name) and t.id == e.id for t in (a.targets if isinstance(a, ast.Assign) else [a.target]))]
+            return len(defs) == 1 and defs[0].value is not None and _configured_in_order(defs[0].value, depth + 1)
+        return False
+
     for l in walk_no_nested(init.node):
-        if isinstance(l, ast.For) and 'self.flags.plugins[' in norm(l.iter) and not isinstance(l.iter, ast.Call):
+        if isinstance(l, ast.For) and _configured_in_order(l.iter):
             for chn, kind, node in attr_effects(ast.Module(body=l.body, type_ignores=[])):
                 if chn == 'self.plugins' and kind == 'item':
                     ok_init = True
